@@ -5,6 +5,10 @@ V = os.path.dirname(os.path.dirname(os.path.abspath(__file__)))
 ids = [json.loads(l)["id"] for l in open(os.path.join(V, "properties.jsonl"))]
 
 CHECKS = {
+ "C17": dict(cat="exploration", design="§4 C17",
+   technique="property-based testing: enumerated + Hypothesis-generated (failure kind x call chain) programs with a trace/banner/exit-status oracle",
+   text="Each of 18 defined dynamic failures is placed at call depth 0-6 below chains mixing functions, closures, methods, list.map callbacks and functions of an imported module, optionally under if/while/from blocks; the run must print exactly the prescribed lines, exit with status 1 (not 101/134), show the FATAL RUNTIME ERROR banner and a trace whose function entries are exactly the active chain innermost-first down to __module__ (labels learnt from the program's own `print f` lines), and a failed assert must name file:line:col of that assert. Every kind x every single chain-element kind x depth 0-2 is enumerated; deeper chains are sampled.",
+   note="Block frames (<if>/<else>/<while>) and native entries are dropped from the trace before comparison; failures inside constructors are not generated."),
  "C13": dict(cat="exploration", design="§4 C13",
    technique="property-based testing: Hypothesis-generated container histories (model-based) against Python lists/dicts with identity",
    text="Histories of up to 12 operations over int/str/nested/optional-element lists and str->int maps, their aliases and clones (every operation named in the statement, boundary indices -1/0/1/len-1/len/len+1, empty containers, self- and alias-join, logging and capturing callbacks) print every live container after each step; stdout and the point of failure for out-of-range indices/removals must equal the reference interpreter's. Exploration: histories are sampled.",
